@@ -264,16 +264,16 @@ def gen_csv_exhaustive(rng):
 def _generate(rng: random.Random, tier: str):
     yield from gen_exhaustive_frames()
     yield from gen_csv_exhaustive(rng)
-    nrand = 500 if tier == "quick" else 6000
+    nrand = 500 if tier == "quick" else 14000
     for _ in range(nrand):
         g = rand_graph(rng)
         g.update({"kind": "frames", "block": "random"})
         yield g
-    for _ in range(150 if tier == "quick" else 1500):      # boundary stream: colliding / odd names, single rows
+    for _ in range(150 if tier == "quick" else 3000):      # boundary stream: colliding / odd names, single rows
         g = rand_graph(rng, collide=0.7, maxn=2)
         g.update({"kind": "frames", "block": "collide"})
         yield g
-    for _ in range(130 if tier == "quick" else 1500):
+    for _ in range(130 if tier == "quick" else 3000):
         g = rand_graph(rng, csv_safe=True, maxn=5)
         via = "cli" if rng.random() < 0.15 else "api"
         g.update({"kind": "csv", "pre_nodes": rng.random() < 0.25, "pre_edges": rng.random() < 0.25,
@@ -283,10 +283,6 @@ def _generate(rng: random.Random, tier: str):
 
 
 # ---------------------------------------------------------------- implementation
-def np_dtype(dt):
-    return "U" if dt == "str" else dt
-
-
 def to_arrays(c):
     ids = np.array(c["ids"], dtype=c["id_dtype"])
     edges = np.array(c["edges"], dtype=c["id_dtype"]).reshape(-1, 2)
@@ -368,9 +364,10 @@ def parse_csv(path):
     """The CSV read back with pandas: raw cell text (exact) and the default typed parse of the id columns."""
     import pandas as pd
 
-    raw = pd.read_csv(path, dtype=str, keep_default_na=False, index_col=0)
-    out = {"columns": [[str(col), [str(v) for v in raw[col].tolist()]] for col in raw.columns], "rows": int(len(raw))}
-    typed = pd.read_csv(path, index_col=0)
+    raw = pd.read_csv(path, dtype=str, keep_default_na=False)
+    cols = [col for k, col in enumerate(raw.columns) if not (k == 0 and str(col).startswith("Unnamed: 0"))]   # row labels
+    out = {"columns": [[str(col), [str(v) for v in raw[col].tolist()]] for col in cols], "rows": int(len(raw))}
+    typed = pd.read_csv(path)
     ids = {}
     for col in ("id", "source", "target"):
         if col in typed.columns:
@@ -772,9 +769,10 @@ def check_table(c, key, idcols, rows, columns, warned, what, from_text=False):
             return ("name-collision" if collide([name]) else "id-column"), f"{what}: column {name!r} is {cells[:6]}, stored ids are {ids[:6]}"
     if n != len(idcols[0][1]):
         return "row-count", f"{what}: {n} rows for {len(idcols[0][1])} stored entries"
-    accounted = {name for name, _ in idcols}
+    idnames = {name for name, _ in idcols}
+    passing = []          # per property: the accepted readings that hold on their own
     for p in props:
-        verdicts = []
+        verdicts, good = [], []
         for alt in alternatives(p):
             names = [nm for nm, _ in alt["columns"]]
             bad = None
@@ -803,11 +801,10 @@ def check_table(c, key, idcols, rows, columns, warned, what, from_text=False):
                     if bad:
                         break
             if bad is None:
-                accounted.update(names)
-                verdicts = None
-                break
-            verdicts.append((bad, names))
-        if verdicts:
+                good.append(frozenset(names))
+            else:
+                verdicts.append((bad, names))
+        if not good:
             # report the reading the implementation is closest to: prefer an alternative whose columns exist
             verdicts.sort(key=lambda t: 0 if t[1] and all(nm in got for nm in t[1]) else 1)
             (why, msg), names = verdicts[0]
@@ -815,10 +812,20 @@ def check_table(c, key, idcols, rows, columns, warned, what, from_text=False):
             if collide(allnames):
                 why = "name-collision"
             return why, msg
-    extra = [nm for nm in got if nm not in accounted]
-    if extra:
-        return "extra-column", f"{what}: columns {extra} come from no property"
-    return None
+        passing.append(list(dict.fromkeys(good)))
+    # one reading per property such that every column is claimed by some source (a column that satisfies two
+    # sources at once -- e.g. a property called "id" on a graph without nodes -- is not a failure)
+    others = set(got) - idnames
+    combos = 1
+    for g in passing:
+        combos *= len(g)
+    extra = sorted(others)
+    for choice in (itertools.product(*passing) if combos <= 4096 else [tuple(g[-1] for g in passing)]):
+        used = set(idnames).union(*choice) if choice else set(idnames)
+        extra = sorted(others - used)
+        if not extra:
+            return None
+    return "extra-column", f"{what}: columns {extra} come from no property"
 
 
 def oracle(c, o):
@@ -866,11 +873,14 @@ def nontrivial(c, o):
 
 
 def describe(c, o):
-    ranks = sorted({len(p["shape"]) for p in c["nprops"] + c["eprops"]})
-    masked = any(p["missing"] and any(p["missing"]) for p in c["nprops"] + c["eprops"])
-    base = f"{c['kind']}:{c.get('block')}:n={len(c['ids'])}:e={len(c['edges'])}:ranks={''.join(map(str, ranks))}:mask={'y' if masked else 'n'}"
+    props = c["nprops"] + c["eprops"]
+    maxrank = max([len(p["shape"]) for p in props], default=0)
+    masked = any(p["missing"] and any(p["missing"]) for p in props)
+    n = len(c["ids"])
+    base = f"{c['kind']}:{c.get('block')}:n={n if n < 2 else '2+'}:maxrank={maxrank}:mask={'y' if masked else 'n'}:zarr{c['zf']}"
     if c["kind"] == "csv":
-        base += f":pre={int(c['pre_nodes'])}{int(c['pre_edges'])}:ov={int(c['overwrite'])}:{c['via']}:{o['res']}"
+        base = (f"csv:{c.get('block')}:pre={int(c['pre_nodes'])}{int(c['pre_edges'])}:ov={int(c['overwrite'])}:{c['via']}:"
+                f"{o['res'] if o['res'] == 'ok' else o.get('exc')}")
     return base
 
 
@@ -895,6 +905,14 @@ def shrink(c):
             if changed:
                 break
     return cur
+
+
+def load_case(c):
+    """Replay files spell non-finite floats as text."""
+    for p in c["nprops"] + c["eprops"]:
+        if p["dtype"].startswith("float"):
+            p["values"] = [float(v) for v in p["values"]]
+    return c
 
 
 def search(rng, budget):
